@@ -188,3 +188,36 @@ func RawStrs(r json.RawMessage) []string {
 	}
 	return v
 }
+
+// Retained results: a string a library function returned must stay what it was, whatever is called afterwards
+// (results built with unsafe conversions over pooled or reused buffers change under the caller's feet). Retain
+// remembers the last few strings per function with a private copy of their bytes and re-checks them on every call.
+type retained struct {
+	s    string
+	copy []byte
+	in   interface{}
+}
+
+var retainRing = map[string][]retained{}
+
+func Retain(st *CaseStats, c *Case, fn string, in interface{}, s string) {
+	ring := retainRing[fn]
+	for _, r := range ring {
+		if r.s != string(r.copy) {
+			st.Add(Mismatch{Fn: fn, Kind: "value", Case: c, Input: map[string]interface{}{"earlier_call": r.in, "later_call": in},
+				Expected: "the string returned by the earlier call still reads " + strconvQuote(r.copy), Actual: r.s})
+			retainRing[fn] = nil
+			return
+		}
+	}
+	if len(s) == 0 {
+		return
+	}
+	ring = append(ring, retained{s: s, copy: []byte(s), in: in})
+	if len(ring) > 4 {
+		ring = ring[1:]
+	}
+	retainRing[fn] = ring
+}
+
+func strconvQuote(b []byte) string { return fmt.Sprintf("%q", string(b)) }
